@@ -194,3 +194,41 @@ pub proof fn lemma_erase_gives_original(c: Seq<u8>, es: Seq<LogRefEntry>)
 }
 
 } // verus!
+verus! {
+// ---- positions produced by the parser (C03/C17): bounded by the span of the statement they belong to -----
+pub proof fn lemma_cursor_bound(es: Seq<LogRefEntry>, k: int, bound: int)
+    requires 0 <= k <= es.len(), 0 <= bound, forall|j: int| 0 <= j < k ==> (#[trigger] es[j]).position.character as int <= bound
+    ensures 0 <= cursor(es, k) <= bound
+    decreases k
+{
+    if k > 0 { lemma_cursor_bound(es, k - 1, bound); }
+}
+pub proof fn lemma_cursor_push(es: Seq<LogRefEntry>, e: LogRefEntry, k: int)
+    requires 0 <= k <= es.len()
+    ensures cursor(es.push(e), k) == cursor(es, k)
+    decreases k
+{
+    if k > 0 {
+        lemma_cursor_push(es, e, k - 1);
+        assert(es.push(e)[k - 1] == es[k - 1]);
+    }
+}
+// appending an entry whose position is at or after every earlier position (and within the file) keeps positions_ok
+pub proof fn lemma_positions_push(c: Seq<u8>, es: Seq<LogRefEntry>, e: LogRefEntry, bound: int)
+    requires
+        positions_ok(c, es), 0 <= bound <= e.position.character as int <= c.len(),
+        forall|j: int| 0 <= j < es.len() ==> (#[trigger] es[j]).position.character as int <= bound,
+    ensures positions_ok(c, es.push(e))
+{
+    let es2 = es.push(e);
+    assert forall|k: int| 0 <= k < es2.len() && missing(#[trigger] es2[k]) implies
+        cursor(es2, k) <= es2[k].position.character as int <= c.len() by {
+        lemma_cursor_push(es, e, k);
+        if k < es.len() {
+            assert(es2[k] == es[k]);
+        } else {
+            lemma_cursor_bound(es, k, bound);
+        }
+    }
+}
+}
